@@ -8,7 +8,6 @@ import (
 	"go/types"
 	"strconv"
 	"strings"
-
 )
 
 // Codec table agreement for cbor-gen code (DESIGN E8): the struct's field
